@@ -1773,7 +1773,7 @@ fixed_size_read(struct inflate_state *state, uint8_t **read_buf, int read_size)
 {
         uint32_t tmp_in_size = state->tmp_in_size;
 
-        if (state->avail_in + tmp_in_size < read_size) {
+        if (state->avail_in < read_size - tmp_in_size) {
                 memcpy(state->tmp_in_buffer + tmp_in_size, state->next_in, state->avail_in);
                 tmp_in_size += state->avail_in;
                 state->tmp_in_size = tmp_in_size;
